@@ -116,6 +116,20 @@ fn run(ctx: &mut Ctx) {
     };
     let ntq = th_q.len() as u64;
     ctx.exhaustive("U3b x thresholds", u3b.subset_count() * ntq, &|i| Case::new(u3b.subset(i / ntq + 1), mk(th_q[(i % ntq) as usize])), &case_fn);
+    {
+        // seeded sample of the 2^31 subsets of {a,b}^<=4 with -r (words up to length 4 are what F18
+        // needed); small sets are the interesting ones, so masks are ANDed to thin them out
+        let n4 = Universe::u4().subset_count();
+        let strat = move || {
+            (1..=n4, 1..=n4, 1..=n4)
+                .prop_map(move |(m1, m2, m3)| {
+                    let m = m1 & m2 & m3;
+                    Case::new(Universe::u4().subset(if m == 0 { m1 } else { m }), mk((1, 1)))
+                })
+                .boxed()
+        };
+        ctx.generated("U4-sample -r", &strat, ctx.tier.pick(20_000, 400_000), &case_fn);
+    }
     if ctx.tier == Tier::Thorough {
         let s4 = SmallSubsets::abc3(4);
         ctx.exhaustive("abc3 subsets <=4 -r", s4.count(), &|i| Case::new(s4.subset(i), mk((1, 1))), &case_fn);
